@@ -175,72 +175,76 @@ func sequential(c *evid.Ctx, depth int) {
 		alphabet = append(alphabet, op{"direct", 60, 0, n})
 	}
 	var evals int64
+	runOne := func(st setting, retain bool, h []int) *recorder {
+		evals++
+		rc := &recorder{retain: retain, curMin: func() int { return st.zipMin }}
+		ctx, cancel := context.WithCancel(context.Background())
+		z := zip.VerifNew(rc, false, st.maxWait, 0, st.maxBuf, st.zipMin, ctx, cancel)
+		var accepted []*pack.LogSinkPack
+		id := 0
+		t := int64(1700000000000)
+		pendBytes, pendFirst := 0, int64(-1)
+		var desc []string
+		verdict := ""
+		for _, oi := range h {
+			o := alphabet[oi]
+			if o.kind == "append" {
+				t += o.dt
+				r := mkRecord(id, o.size, t)
+				id++
+				accepted = append(accepted, r)
+				before := len(rc.snapshot)
+				z.Append(r)
+				desc = append(desc, fmt.Sprintf("Append(%dB,+%dms)", o.size, o.dt))
+				pendBytes += len(recordBytes(r))
+				if pendFirst < 0 {
+					pendFirst = t
+				}
+				// deadline: once the buffer reached the limit or the record-time span the
+				// waiting time, a flush must have happened by the end of this Append
+				if (pendBytes >= st.maxBuf || t-pendFirst >= st.maxWait) && len(rc.snapshot) == before {
+					verdict = fmt.Sprintf("deadline: after %v the buffer holds %d bytes spanning %d ms (limits %d bytes / %d ms) but nothing was flushed", desc, pendBytes, t-pendFirst, st.maxBuf, st.maxWait)
+					break
+				}
+				if len(rc.snapshot) > before {
+					pendBytes, pendFirst = 0, -1
+				}
+			} else {
+				var arr []*pack.LogSinkPack
+				for k := 0; k < o.n; k++ {
+					r := mkRecord(id, o.size, t)
+					id++
+					arr = append(arr, r)
+				}
+				// SendDirect bypasses the shared buffer: its records are emitted immediately,
+				// records still buffered by Append stay where they are and come out later
+				tail := buffered(accepted, rc)
+				head := accepted[:len(accepted)-len(tail)]
+				z.SendDirect(arr)
+				desc = append(desc, fmt.Sprintf("SendDirect(%d)", o.n))
+				accepted = append(append(append([]*pack.LogSinkPack{}, head...), arr...), tail...)
+			}
+		}
+		if verdict == "" {
+			cancel()
+			// stop: flush what is buffered (what run() does on cancellation)
+			z.VerifFlushOnStop()
+			verdict = judge(rc, accepted, true)
+		}
+		if verdict != "" {
+			kind := strings.SplitN(verdict, ":", 2)[0]
+			c.Violation("C16:sequential:"+kind, fmt.Sprintf("settings{maxBuf:%d maxWait:%d zipMin:%d} retain=%v history %v: %s", st.maxBuf, st.maxWait, st.zipMin, retain, desc, verdict),
+				map[string]interface{}{"engine": "E2", "settings": fmt.Sprint(st), "retain": retain, "history": desc})
+		}
+		return rc
+	}
 	for _, st := range settings {
 		for _, retain := range []bool{false, true} {
 			hist := make([]int, depth)
 			var rec func(pos, l int)
 			rec = func(pos, l int) {
 				if pos == l {
-					evals++
-					rc := &recorder{retain: retain, curMin: func() int { return st.zipMin }}
-					ctx, cancel := context.WithCancel(context.Background())
-					z := zip.VerifNew(rc, false, st.maxWait, 0, st.maxBuf, st.zipMin, ctx, cancel)
-					var accepted []*pack.LogSinkPack
-					id := 0
-					t := int64(1700000000000)
-					pendBytes, pendFirst := 0, int64(-1)
-					var desc []string
-					verdict := ""
-					for _, oi := range hist[:l] {
-						o := alphabet[oi]
-						if o.kind == "append" {
-							t += o.dt
-							r := mkRecord(id, o.size, t)
-							id++
-							accepted = append(accepted, r)
-							before := len(rc.snapshot)
-							z.Append(r)
-							desc = append(desc, fmt.Sprintf("Append(%dB,+%dms)", o.size, o.dt))
-							pendBytes += len(recordBytes(r))
-							if pendFirst < 0 {
-								pendFirst = t
-							}
-							// deadline: once the buffer reached the limit or the record-time span the
-							// waiting time, a flush must have happened by the end of this Append
-							if (pendBytes >= st.maxBuf || t-pendFirst >= st.maxWait) && len(rc.snapshot) == before {
-								verdict = fmt.Sprintf("deadline: after %v the buffer holds %d bytes spanning %d ms (limits %d bytes / %d ms) but nothing was flushed", desc, pendBytes, t-pendFirst, st.maxBuf, st.maxWait)
-								break
-							}
-							if len(rc.snapshot) > before {
-								pendBytes, pendFirst = 0, -1
-							}
-						} else {
-							var arr []*pack.LogSinkPack
-							for k := 0; k < o.n; k++ {
-								r := mkRecord(id, o.size, t)
-								id++
-								arr = append(arr, r)
-							}
-							// SendDirect bypasses the shared buffer: its records are emitted immediately,
-							// records still buffered by Append stay where they are and come out later
-							tail := buffered(accepted, rc)
-							head := accepted[:len(accepted)-len(tail)]
-							z.SendDirect(arr)
-							desc = append(desc, fmt.Sprintf("SendDirect(%d)", o.n))
-							accepted = append(append(append([]*pack.LogSinkPack{}, head...), arr...), tail...)
-						}
-					}
-					if verdict == "" {
-						cancel()
-						// stop: flush what is buffered (what run() does on cancellation)
-						z.VerifFlushOnStop()
-						verdict = judge(rc, accepted, true)
-					}
-					if verdict != "" {
-						kind := strings.SplitN(verdict, ":", 2)[0]
-						c.Violation("C16:sequential:"+kind, fmt.Sprintf("settings{maxBuf:%d maxWait:%d zipMin:%d} retain=%v history %v: %s", st.maxBuf, st.maxWait, st.zipMin, retain, desc, verdict),
-							map[string]interface{}{"engine": "E2", "settings": fmt.Sprint(st), "retain": retain, "history": desc})
-					}
+					runOne(st, retain, hist[:l])
 					return
 				}
 				for i := range alphabet {
@@ -253,6 +257,35 @@ func sequential(c *evid.Ctx, depth int) {
 			}
 		}
 	}
+	// threshold sweep: for every history of length <= 2, learn the payload length L of each pack it
+	// emits (with compression out of reach) and re-run it with the minimum size at L-1, L and L+1, so
+	// that "compressed exactly when the payload reaches the minimum" is judged at equality
+	sweeps := int64(0)
+	for _, mb := range []int{64, 1 << 16} {
+		var hs [][]int
+		for i := range alphabet {
+			hs = append(hs, []int{i})
+			for j := range alphabet {
+				hs = append(hs, []int{i, j})
+			}
+		}
+		for _, h := range hs {
+			probe := runOne(setting{mb, 1000, 1 << 20}, false, h)
+			seen := map[int]bool{}
+			for _, zp := range probe.handed {
+				L := len(zp.Records)
+				for _, m := range []int{L - 1, L, L + 1} {
+					if m < 1 || seen[m] {
+						continue
+					}
+					seen[m] = true
+					sweeps++
+					runOne(setting{mb, 1000, m}, false, h)
+				}
+			}
+		}
+	}
+	c.Count("threshold_sweep_runs", sweeps)
 	c.Count("sequential_histories", evals)
 	c.Count("states", evals)
 	c.Count("transitions", evals*int64(depth))
